@@ -1,7 +1,7 @@
 (* Extraction of the executable model.  ExtrOcamlBasic only: bool, option, unit, list, prod, sumbool
    map to OCaml's own types; numbers (positive, N, Z, nat) stay the extracted Coq datatypes. *)
 From Coq Require Import Extraction ExtrOcamlBasic.
-From Lug Require Import Utf8.Utf8Model Utf8.Utf8Spec Ucd.Rle Ucd.Lookup Ucd.RuneSet VM.Instr Lang.Expr Lang.Elab Lang.Codegen Lang.Link Lang.Lower VM.Machine Spec.Peg Spec.PegEval Proofs.LinkStmt Proofs.TopStmt.
+From Lug Require Import Utf8.Utf8Model Utf8.Utf8Spec Ucd.Rle Ucd.Lookup Ucd.RuneSet VM.Instr Lang.Expr Lang.Elab Lang.Codegen Lang.Link Lang.Lower VM.Machine Spec.Peg Spec.PegEval Spec.PegEnv Spec.PegEnvEval Spec.PegProp Proofs.LinkStmt Proofs.TopStmt.
 Extraction Language OCaml.
 Extraction "model.ml" decode_rune encode_rune count_runes decode_all
   wf_prefix dec_conforms enc_conforms
@@ -9,4 +9,5 @@ Extraction "model.ml" decode_rune encode_rune count_runes decode_all
   rec_all_of rec_any_of rec_none_of
   push_range push_casefolded_range push_rune sort_and_optimize negate contains rs_empty
   compile lower step init_state fetch desugar
-  compile_defs link_layout frag peg_eval top_pexp rules_of placed default_space_expr and_free.
+  compile_defs link_layout frag peg_eval top_pexp rules_of placed default_space_expr and_free
+  fragE pegE_eval pegP_eval reset_state enqueue init_state_with.
